@@ -144,7 +144,36 @@ KERNELS += [
                 (r"(?<![\w.>*])ring([12]) = ", r"*ring\1 = ", 2)] + SEGACC),
 ]
 
+
+KERNELS += [
+    dict(name="K_get_num_det_pos_pairs_for_bin", file=CXX, cxx_name=CLS + "get_num_det_pos_pairs_for_bin",
+         func=CLS + r"get_num_det_pos_pairs_for_bin\(const Bin& bin, bool ignore_non_spatial_dimensions\) const",
+         c_header="unsigned int K_get_num_det_pos_pairs_for_bin(const struct PDI1* self, const struct Bin* bin, _Bool ignore_non_spatial_dimensions)", loops=0,
+         rules=[(r"get_num_ring_pairs_for_segment_axial_pos_num\(", "NUM_RP(self, ", 1), BINF, (r"get_view_mashing_factor\(\)", "self->view_mashing_factor", 1),
+                (r"get_tof_mash_factor\(\)", "self->tof_mash_factor", 1), (r"std::max\(", "K_max_int(", 1)]),
+    dict(name="K_get_all_det_pos_pairs_for_bin", file=CXX, cxx_name=CLS + "get_all_det_pos_pairs_for_bin",
+         func=CLS + r"get_all_det_pos_pairs_for_bin\(vector<DetectionPositionPair<>>& dps,\s*const Bin& bin,\s*bool ignore_non_spatial_dimensions\) const",
+         c_header="void K_get_all_det_pos_pairs_for_bin(struct PDI1* self, const struct Bin* bin, _Bool ignore_non_spatial_dimensions)", loops=3,
+         rules=[(r"this->initialise_uncompressed_view_tangpos_to_det1det2_if_not_done_yet\(\);", "K_init_vt2d_if_not_done_yet(self); K_RETURN_IF_ERROR();", 1),
+                (r"dps\.resize\(get_num_det_pos_pairs_for_bin\(bin, ignore_non_spatial_dimensions\)\);",
+                 "DPS_RESIZE(K_get_num_det_pos_pairs_for_bin(self, bin, ignore_non_spatial_dimensions));", 1),
+                (r"const ProjDataInfoCylindrical::RingNumPairs& ring_pairs\s*= get_all_ring_pairs_for_segment_axial_pos_num\(bin\.segment_num\(\), bin\.axial_pos_num\(\)\);",
+                 "RPLIST_GET(self, bin->segment_num, bin->axial_pos_num);", 1),
+                (r"for \(auto rings_iter = ring_pairs\.begin\(\); rings_iter != ring_pairs\.end\(\); \+\+rings_iter\)",
+                 "for (int rings_iter = 0; rings_iter != g_nrp; ++rings_iter)", 1),
+                (r"rings_iter->first", "RP_FIRST(rings_iter)", 1), (r"rings_iter->second", "RP_SECOND(rings_iter)", 1),
+                (r"uncompressed_view_tangpos_to_det1det2\[(\w+)\]\[([^\]]+)\]\.(det[12]_num)", r"TAB1_READ_\3(self, \1, \2)", 2),
+                (r"dps\[current_dp_num\]\.pos([12])\(\)\.tangential_coord\(\) = ([^;]+);", r"DPS_WRITE(current_dp_num, p\1_tang, \2);", 2),
+                (r"dps\[current_dp_num\]\.pos([12])\(\)\.axial_coord\(\) = ([^;]+);", r"DPS_WRITE(current_dp_num, p\1_axial, \2);", 2),
+                (r"dps\[current_dp_num\]\.timing_pos\(\) = ([^;]+);", r"DPS_WRITE(current_dp_num, timing_pos, \1);", 1),
+                (r'\berror\("[^"]*"\);', "K_THROW_VOID;", (0, 2)),
+                (r"(?<![\w>.])is_tof_data\(\)", "K_is_tof_data(self)", (0, 4)),
+                (r"get_view_mashing_factor\(\)", "self->view_mashing_factor", (2, 4)), (r"get_tof_mash_factor\(\)", "self->tof_mash_factor", (4, 10)), BINF]),
+]
+
 TOF_MASH = {"quick": [0, 1, 2, 3, 5, 7, 11, 13, 25, 27], "thorough": [0] + list(range(1, 65)) + [117, 351, 1023]}
+ALLPAIRS = {"quick": [(1, 0, 1), (1, 1, 2), (2, 3, 5), (4, 5, 2), (1, 2, 1), (2, 4, 2), (2, 3, 0)],
+            "thorough": [(m, f, r) for m in (1, 2, 4, 8) for f in (0, 1, 2, 3, 4, 5, 6, 7, 9, 11, 13) for r in (0, 1, 2, 3, 7)]}
 CHK = ["--signed-overflow-check", "--div-by-zero-check", "--bounds-check", "--pointer-check", "--conversion-check"]
 
 
@@ -230,6 +259,14 @@ def jobs(tier, gen_dir):
         out.append(Job("c01/lemma_" + lem, HARNESS, "h_lemma_" + lem, kind="lemma", kernels=[], flags=CHK, no_base_flags=True,
                        replace=["K_get_segment_axial_pos_num_for_ring_pair", "K_get_ring_pair_for_segment_axial_pos_num"], defines={"C01_N": 16},
                        min_obligations=2, timeout=300, backend="kissat"))
+    # get_all_det_pos_pairs_for_bin: view mashing m and TOF mashing f constant per job (products with symbolic counts), N=16
+    enforce("K_get_num_det_pos_pairs_for_bin", lc=False, repl=["NUM_RP"], defines={"C01_N": 16})
+    for M, F, R in ALLPAIRS[tier]:
+        enforce("K_get_all_det_pos_pairs_for_bin", "/N=16/M=%d/F=%d/R=%d" % (M, F, R), lc=True,
+                repl=["K_init_vt2d_if_not_done_yet", "K_get_num_det_pos_pairs_for_bin", "RP_FIRST", "RP_SECOND", "TAB1_READ_det1_num", "TAB1_READ_det2_num"],
+                defines={"C01_N": 16, "C01_M": M, "C01_F": F, "C01_R": R},
+                params={"num_detectors_per_ring": 16, "view_mashing": M, "tof_mash_factor": F, "num_ring_pairs": R},
+                object_bits=10)
     # TOF mashing factor: constant per job (float division by a constant), every other input symbolic
     for F in TOF_MASH[tier]:
         enforce("K_get_bin_for_det_pos_pair", "/N=16/F=%d" % F, lc=False, repl=["K_get_bin_for_det_pair"], defines={"C01_N": 16, "C01_F": F},
@@ -255,3 +292,43 @@ UNDECIDED_CLAUSES = []
 def param_summary(tier):
     rs = ring_sizes(tier)
     return {"num_detectors_per_ring": "%d values (min %d, max %d) + symbolic even N <= 64" % (len(rs), rs[0], rs[-1])}
+
+
+# ---------------- native replay (real STIR libraries rebuilt from the working tree) ----------------
+from vlib import native
+
+
+def replay(job, o, workroot, repo):
+    exe = os.path.join(workroot, "c01_replay")
+    if not os.path.exists(exe):
+        exe, info = native.build(repo, os.path.join(VERIF, "replay", "c01.cpp"), exe)
+        if not exe:
+            return {"status": "unavailable", "detail": "replay driver did not build: " + info}
+    name = job.name
+    N = job.params.get("num_detectors_per_ring")
+    cands = []
+    if "det_pos_pairs_for_bin" in name:
+        F = job.params.get("tof_mash_factor", 1)
+        M = job.params.get("view_mashing", 1)
+        for c in ((0, 1, F), (0, M, F), (16, M, 0), (16, 1, 0), (24, 3, 0), (0, 1, 3), (0, 2, 2)):
+            if c[2] > 0 or c[0] > 0:
+                cands.append(["allpairs"] + list(c))
+    elif re.search(r"ring|K_compute|K_get_segment|K_get_num_axial", name) and "num_pair" not in name:
+        for c in ((16, 3, 15), (16, 1, 15), (24, 7, 20), (16, 5, 15), (32, 9, 31), (8, 3, 7), (45, 11, 44), (18, 3, 17), (4, 1, 3)):
+            cands.append(["rings"] + list(c))
+    elif "det_pos_pair" in name and "for_bin" not in name.split("det_pos_pair")[-1] or "K_round_float" in name:
+        F = job.params.get("tof_mash_factor")
+        for f in ([F] if isinstance(F, int) else []) + [1, 3, 5, 2, 7, 9, 11, 13, 0]:
+            cands.append(["tof", f])
+    if not cands or ("det_pos_pairs_for_bin" not in name and ("lemma" in name or "init" in name or "vt" in name or "det_pair" in name or "bin" in name)):
+        sizes = ([N] if isinstance(N, int) else []) + [16, 6, 4, 2, 64, 30]
+        for n in sizes:
+            cands.append(["tables", n])
+        for n, m in ((16, 2), (16, 4), (24, 3), (64, 8)):
+            cands.append(["tables", n, m])
+    for c in cands:
+        st, detail = native.run(exe, c, timeout=900)
+        if st == "confirmed":
+            return {"status": "confirmed", "detail": detail, "command": "c01_replay " + " ".join(map(str, c)),
+                    "from_verifier_counterexample": bool(c is cands[0] and isinstance(N, int) and c[0] == "tables")}
+    return {"status": "not-reproduced", "detail": "%d native runs (exhaustive per configuration)" % len(cands)}
